@@ -40,6 +40,14 @@ CHECKS = {
          "Exploration: ~560 generated UFOs (hostile glyph names, postscriptNames maps with duplicates/empty/illegal values, lib switches, TTF/CFF/CFF2 and a variable stratum), each compiled three times by the real compile functions; every table except post/'CFF ' must be byte-identical (head checksum masked), CFF charstrings and dict values equal per glyph index, final names unique, legal and admissible under the naming rules.",
          "Trusts fontTools' sfnt reader; Latin-1 feature-file-safe source names; uniqueness numbering scheme not prescribed.",
          "DESIGN.md section 5 C11"),
+ "C05": ("runtime monitoring: GPOS interpreter (shaper semantics over the reloaded tables) against an independent UFO kerning lookup, per script tag, for every ordered glyph pair",
+         "Exploration: 700 generated multi-script UFOs (all four kerning precedence levels with deliberate exceptions, zero/fractional/negative values, missing glyphs, unknown groups, GDEF marks, languagesystems none/some/all, quantisation, both kern writers); every ordered glyph pair is evaluated under every script tag by an interpreter of the compiled GPOS and compared with the UFO lookup (value, applied once, x-placement rule); three listed mechanisms are known findings, each re-exercised by a dedicated stratum.",
+         "Trusts fontTools' GPOS/GDEF readers and unicodedata; shaper semantics of DESIGN section 3; quantifier of DESIGN 4.4.",
+         "DESIGN.md section 5 C05, 4.4, section 6"),
+ "C16": ("runtime monitoring: field-by-field reference oracle (independent fallback table) over reloaded name/OS2/hhea/head/post/CFF tables, plus an exhaustive sweep of every Unicode scalar through the PostScript-name normaliser",
+         "Exploration with an exhaustive sub-space: 6000 sampled font-info subsets (both UFO libraries, TTF/OTF, variable-font overrides) compiled, saved, reloaded and compared field by field with the explicit value or the documented fallback; every run also pushes all 1 112 064 Unicode scalar values through the real PostScript-name fallback and fully compiles representatives of each outcome class.",
+         "Trusts fontTools' table readers; attributes without a destination in the listed tables are unchecked (listed in the evidence assumptions).",
+         "DESIGN.md section 5 C16"),
 }
 
 NOT_APPLICABLE = [
